@@ -223,18 +223,11 @@ func effectSignatureD(p *packages.Package, body *ast.BlockStmt, expanding map[*a
 							expanding[hd] = true
 							sub := effectSignatureD(p, hd.Body, expanding)
 							delete(expanding, hd)
-							okSub := true
-							for _, part := range strings.Fields(sub) {
-								switch {
-								case strings.HasPrefix(part, "calls="):
-									for _, c := range strings.Split(strings.TrimPrefix(part, "calls="), ",") {
-										calls[c] = true
-									}
-								default:
-									okSub = false // stores of the helper: keep the call itself as the effect
+							// only a helper that does nothing but delete map entries is read as its body
+							if sub == "calls=delete" || sub == "calls=clear" || sub == "calls=clear,delete" {
+								for _, c := range strings.Split(strings.TrimPrefix(sub, "calls="), ",") {
+									calls[c] = true
 								}
-							}
-							if okSub {
 								return true
 							}
 							calls[cn] = true
